@@ -1,1 +1,233 @@
-"""(rules to be added)"""
+"""Engine TABLE - the opcode tables against the interpreter's own metadata (DESIGN 5.5)."""
+from __future__ import annotations
+
+import ast
+from typing import Dict, List, Optional, Set
+
+from .. import astutil as A
+from ..model import AnalysisError
+from ..oracle import interpreters, oracle
+from ..report import Ob, bad, ok, unresolved
+from . import rule
+from .common import kw, method_calls
+
+GENERATOR_ONLY = {"SEND", "JUMP_BACKWARD_NO_INTERRUPT", "END_ASYNC_FOR", "CLEANUP_THROW"}
+UNCOND_NAMES = {"JUMP_FORWARD", "JUMP_BACKWARD", "JUMP_ABSOLUTE", "JUMP", "JUMP_NO_INTERRUPT", "JUMP_BACKWARD_NO_INTERRUPT"}
+RETURN_NAMES = {"RETURN_VALUE", "RETURN_CONST"}
+TABLES = {"cond": "_cond_jump", "uncond": "_uncond_jump", "term": "_terminating"}
+
+
+def _tables(ctx) -> Dict[str, Set[str]]:
+    m = ctx.prog.module("utils")
+    out = {}
+    for role, name in TABLES.items():
+        if name not in m.constants:
+            raise AnalysisError(f"opcode table {name} not found in utils.py")
+        v = ctx.prog.const_value(m, m.constants[name])
+        out[role] = set(v)
+    return out
+
+
+def _classify(name: str) -> Optional[str]:
+    if name in UNCOND_NAMES:
+        return "uncond"
+    if "_IF_" in name or name in ("FOR_ITER", "SEND") or name.startswith("POP_JUMP") or name.startswith("JUMP_IF"):
+        return "cond"
+    return None
+
+
+@rule("TABLE-1", 10, "the opcode tables classify every jump and return opcode of the interpreter, each in the right table")
+def table1(ctx) -> List[Ob]:
+    out: List[Ob] = []
+    tabs = _tables(ctx)
+    m = ctx.prog.module("utils")
+    where = f"{m.relpath}:{A.lineno(m.constants['_cond_jump'])}"
+    exes = interpreters() if ctx.tier == "thorough" else interpreters()[:1]
+    ctx.stats["TABLE-1.interpreters"] = exes
+    for exe in exes:
+        data = oracle(exe)
+        ver = ".".join(str(x) for x in data["version"][:2])
+        ops = data["opcodes"]
+        for name, d in sorted(ops.items()):
+            if d.get("pseudo"):
+                continue
+            is_jump = d["jrel"] or d["jabs"]
+            key = f"py{ver} {name}"
+            if is_jump:
+                if name in GENERATOR_ONLY:
+                    out.append(ok("TABLE-1", "<module>", key, where, "emitted only around generator suspension points / async loops: outside the domain", nontrivial=False))
+                    continue
+                cls = _classify(name)
+                if cls is None:
+                    out.append(unresolved("TABLE-1", "<module>", key, where, f"jump opcode {name} of Python {ver} is unknown to the checker's classification"))
+                    continue
+                if name in tabs[cls] and not any(name in tabs[o] for o in tabs if o != cls):
+                    out.append(ok("TABLE-1", "<module>", key, where, f"{name} ({cls}) listed in {TABLES[cls]}"))
+                elif name not in tabs[cls]:
+                    wrong = [TABLES[o] for o in tabs if name in tabs[o]]
+                    if wrong:
+                        out.append(bad("TABLE-1", "<module>", key, where, f"{name} is a{'n un' if cls == 'uncond' else ' '}conditional jump in Python {ver} but is listed in {wrong[0]}: wrong number of successors"))
+                    else:
+                        out.append(bad("TABLE-1", "<module>", key, where, f"jump opcode {name} of Python {ver} is in no table: a block ending with it gets an implicit fall-through only, or building the graph fails with KeyError"))
+                else:
+                    out.append(bad("TABLE-1", "<module>", key, where, f"{name} is listed in more than one table"))
+            elif name in RETURN_NAMES:
+                if name in tabs["term"] and name not in tabs["cond"] and name not in tabs["uncond"]:
+                    out.append(ok("TABLE-1", "<module>", key, where, f"{name} listed in _terminating"))
+                else:
+                    out.append(bad("TABLE-1", "<module>", key, where, f"returning opcode {name} of Python {ver} is not (only) in _terminating: a block ending with it falls through to the next block / KeyError"))
+            else:
+                hit = [TABLES[o] for o in tabs if name in tabs[o]]
+                if hit:
+                    out.append(bad("TABLE-1", "<module>", key, where, f"{name} is neither a jump nor a return in Python {ver} but is listed in {hit[0]}"))
+    # disjointness
+    for a in tabs:
+        for b in tabs:
+            if a < b and tabs[a] & tabs[b]:
+                out.append(bad("TABLE-1", "<module>", f"tables {a}/{b} overlap", where, f"{sorted(tabs[a] & tabs[b])} listed in both {TABLES[a]} and {TABLES[b]}"))
+    return out
+
+
+@rule("TABLE-2", 6, "the three classification arms record 2 / 1 / 0 targets, fall-through first, and each predicate reads its own table")
+def table2(ctx) -> List[Ob]:
+    out: List[Ob] = []
+    fi = ctx.prog.cls("FlowInfo")
+    fb = fi.find_method("from_bytecode")
+    if fb is None:
+        raise AnalysisError("FlowInfo.from_bytecode not found")
+    um = ctx.prog.module("utils")
+    preds = {}
+    for role, tname in TABLES.items():
+        for f in um.functions.values():
+            rets = [n for n in A.walk_no_nested(f.node) if isinstance(n, ast.Return) and n.value is not None]
+            if len(rets) == 1 and isinstance(rets[0].value, ast.Compare) and isinstance(rets[0].value.ops[0], ast.In) and A.unparse(rets[0].value.comparators[0]) == tname:
+                preds[f.name] = role
+    for fname, role in sorted(preds.items()):
+        out.append(ok("TABLE-2", fname, f"predicate reads {TABLES[role]}", f"{um.relpath}:1", f"{fname}(opname) == opname in {TABLES[role]}", nontrivial=False))
+    want = {"cond": 2, "uncond": 1, "term": 0}
+    seen_roles = set()
+    for n in A.walk_no_nested(fb.node):
+        if not isinstance(n, ast.If):
+            continue
+        t = n.test
+        if isinstance(t, ast.Call) and (A.dotted(t.func) or "").split(".")[-1] in preds:
+            role = preds[(A.dotted(t.func) or "").split(".")[-1]]
+            seen_roles.add(role)
+            calls = [c for c in method_calls(ast.Module(n.body, []), "_add_jump_inst")]
+            key = f"{role} arm"
+            where = ctx.where(fb, n)
+            if len(calls) != 1 or len(calls[0].args) != 2 or not isinstance(calls[0].args[1], ast.Tuple):
+                out.append(bad("TABLE-2", fb.qualname, key, where, f"the {role} arm does not record its targets with one _add_jump_inst(offset, (<targets>)) call"))
+                continue
+            tup = calls[0].args[1]
+            if len(tup.elts) != want[role]:
+                out.append(bad("TABLE-2", fb.qualname, key, where, f"the {role} arm records {len(tup.elts)} target(s), expected {want[role]}"))
+                continue
+            if A.unparse(calls[0].args[0]) != "inst.offset":
+                out.append(bad("TABLE-2", fb.qualname, key, where, f"the jump is recorded under {A.unparse(calls[0].args[0])}, not under the instruction's own offset"))
+                continue
+            if role == "cond":
+                a, b = tup.elts
+                ft = isinstance(a, ast.Call) and (A.dotted(a.func) or "").split(".")[-1] == "_next_inst_offset" and A.unparse(a.args[0]) == "inst.offset"
+                jt = A.unparse(b) == "inst.argval"
+                if ft and jt:
+                    out.append(ok("TABLE-2", fb.qualname, key, where, "targets = (fall-through, jump target) in that order"))
+                else:
+                    out.append(bad("TABLE-2", fb.qualname, key, where, f"conditional targets are ({A.unparse(a)}, {A.unparse(b)}); expected (fall-through offset, inst.argval): first successor must be the fall-through"))
+            elif role == "uncond":
+                if A.unparse(tup.elts[0]) == "inst.argval":
+                    out.append(ok("TABLE-2", fb.qualname, key, where, "single target inst.argval"))
+                else:
+                    out.append(bad("TABLE-2", fb.qualname, key, where, f"unconditional jump records {A.unparse(tup.elts[0])} instead of inst.argval"))
+            else:
+                out.append(ok("TABLE-2", fb.qualname, key, where, "no successor after a return"))
+    for role in want:
+        if role not in seen_roles:
+            out.append(bad("TABLE-2", fb.qualname, f"{role} arm", ctx.where(fb), f"no arm classifies {role} opcodes in from_bytecode"))
+    # block starts: offset 0 / jump targets
+    key = "block start at offset 0 and at jump targets"
+    tests = [A.unparse(n.test) for n in A.walk_no_nested(fb.node) if isinstance(n, ast.If)]
+    if any("is_jump_target" in t and "offset == 0" in t for t in tests):
+        out.append(ok("TABLE-2", fb.qualname, key, ctx.where(fb), "offset 0 and every is_jump_target instruction start a block"))
+    else:
+        out.append(bad("TABLE-2", fb.qualname, key, ctx.where(fb), "instructions that are jump targets (or offset 0) no longer start a block"))
+    return out
+
+
+@rule("TABLE-3", 3, "the terminator of a block is found at end-2: no unconditional jump or return opcode carries inline cache entries")
+def table3(ctx) -> List[Ob]:
+    out: List[Ob] = []
+    tabs = _tables(ctx)
+    m = ctx.prog.module("utils")
+    where = f"{m.relpath}:{A.lineno(m.constants['_uncond_jump'])}"
+    exes = interpreters() if ctx.tier == "thorough" else interpreters()[:1]
+    for exe in exes:
+        data = oracle(exe)
+        ver = ".".join(str(x) for x in data["version"][:2])
+        for name in sorted(tabs["uncond"] | tabs["term"]):
+            d = data["opcodes"].get(name)
+            if d is None:
+                continue
+            key = f"py{ver} {name} caches"
+            if d["caches"] == 0:
+                out.append(ok("TABLE-3", "<module>", key, where, f"{name} has no inline cache: it sits at end-2 of its block"))
+            else:
+                out.append(bad("TABLE-3", "<module>", key, where, f"{name} carries {d['caches']} inline cache entries in Python {ver}: the block's terminator is not at end-2, so its jump is missed and replaced by an implicit fall-through"))
+    # the lookup itself
+    fi = ctx.prog.cls("FlowInfo")
+    bb = fi.find_method("build_basicblocks")
+    if bb is None:
+        raise AnalysisError("FlowInfo.build_basicblocks not found")
+    key = "terminator lookup"
+    txt = A.unparse(bb.node)
+    if "_prev_inst_offset(end)" in txt and "not in self.jump_insts" in txt and "names[end]" in txt:
+        out.append(ok("TABLE-3", bb.qualname, key, ctx.where(bb), "term_offset = end-2; recorded jump else implicit fall-through to the next block"))
+    else:
+        out.append(unresolved("TABLE-3", bb.qualname, key, ctx.where(bb), "terminator lookup not recognised"))
+    pv = ctx.prog.module("utils").functions.get("_prev_inst_offset")
+    nx = ctx.prog.module("utils").functions.get("_next_inst_offset")
+    for f, op in ((pv, ast.Sub), (nx, ast.Add)):
+        if f is None:
+            raise AnalysisError("_prev_inst_offset / _next_inst_offset not found")
+        r = [n for n in A.walk_no_nested(f.node) if isinstance(n, ast.Return)][0].value
+        key = f"{f.name} step"
+        if isinstance(r, ast.BinOp) and isinstance(r.op, op) and isinstance(r.right, ast.Constant) and r.right.value == 2:
+            out.append(ok("TABLE-3", f.qualname, key, ctx.where(f), "one code unit = 2 bytes", nontrivial=False))
+        else:
+            out.append(bad("TABLE-3", f.qualname, key, ctx.where(f), f"{f.name} returns {A.unparse(r)}: not one 2-byte code unit"))
+    return out
+
+
+@rule("TABLE-4", 2, "every recorded jump target starts a block")
+def table4(ctx) -> List[Ob]:
+    out: List[Ob] = []
+    fi = ctx.prog.cls("FlowInfo")
+    aj = fi.find_method("_add_jump_inst")
+    if aj is None:
+        raise AnalysisError("FlowInfo._add_jump_inst not found")
+    params = [p.arg for p in aj.params if p.arg != "self"]
+    tparam = params[1] if len(params) > 1 else "targets"
+    cfg = ctx.cfg(aj)
+    key = "targets added to block_offsets"
+    loops = [n for n in A.walk_no_nested(aj.node) if isinstance(n, ast.For) and A.unparse(n.iter) == tparam]
+    good = False
+    for lp in loops:
+        adds = [c for c in method_calls(lp, "add") if "block_offsets" in A.unparse(c.func.value) and c.args and A.unparse(c.args[0]) == A.unparse(lp.target)]
+        for c in adds:
+            n = cfg.node_of(c)
+            hdr = cfg.node_of(lp)
+            # the add is executed on every iteration (not skipped by continue / condition)
+            body_first = [s for s in hdr.succ if s.stmt is not None and s.stmt in lp.body]
+            if body_first and all(hdr not in cfg.reachable(b, avoid=lambda z: z is n, include_src=True) or b is n for b in body_first):
+                good = True
+    if good:
+        out.append(ok("TABLE-4", aj.qualname, key, ctx.where(aj), f"every element of {tparam} is added to block_offsets on every iteration"))
+    else:
+        out.append(bad("TABLE-4", aj.qualname, key, ctx.where(aj), "a recorded jump target is not (always) registered as a block start: the target lands in the middle of a block"))
+    key = "jump recorded under its offset"
+    st = [s for s in A.walk_no_nested(aj.node) if isinstance(s, ast.Assign) and isinstance(s.targets[0], ast.Subscript) and "jump_insts" in A.unparse(s.targets[0].value)]
+    if st and A.unparse(st[0].targets[0].slice) == params[0] and A.unparse(st[0].value) in (f"tuple({tparam})", tparam):
+        out.append(ok("TABLE-4", aj.qualname, key, ctx.where(aj, st[0]), "jump_insts[offset] = tuple(targets)"))
+    else:
+        out.append(bad("TABLE-4", aj.qualname, key, ctx.where(aj), "the targets are not recorded, in order, under the instruction's offset"))
+    return out
